@@ -12,12 +12,16 @@ def main():
     import numpy as np
     req = json.load(sys.stdin)
     d = rd.DEFAULTDATA
+    if req.get("ds") == "synth":
+        import os
+        from radioactivedecay.decaydata import load_dataset
+        d = load_dataset("synth", os.environ["VERIF_SYNTH_DIR"], load_sympy=True)
     names = req.get("nuclides") or [str(n) for n in d.nuclides]
     out = []
     for name in names:
         r = {"name": name, "hl": {}, "iface_mismatch": []}
-        nuc = rd.Nuclide(name)
-        inv = rd.Inventory({name: 1.0}, "num")
+        nuc = rd.Nuclide(name, d)
+        inv = rd.Inventory({name: 1.0}, "num", True, d)
         for u in req["units"] + ["readable"]:
             try:
                 a = d.half_life(name, u); b = nuc.half_life(u); c = inv.half_lives(u)[name]
@@ -38,7 +42,7 @@ def main():
         r["mass"] = float(nuc.atomic_mass).hex()
         # pairwise look-ups against every member of the chain (links and non-links)
         if req.get("pairs"):
-            chain = [str(x) for x in rd.Inventory({name: 1.0}, "num").decay(0.0).nuclides]
+            chain = [str(x) for x in rd.Inventory({name: 1.0}, "num", True, d).decay(0.0).nuclides]
             pw = {}
             for other in chain:
                 try:
